@@ -16,7 +16,7 @@ META = {
             'oracles); 5 s alarm per call (hang = violation); run under 2-8 hash seeds. CNF grammars x generated words: leftmost and '
             'rightmost derivations validated step by step and compared exactly with the Lean model. The Lean models of the simulators are '
             'run under random schedulers and their traces validated by the same checker; non-trivial = accepted non-empty word whose '
-            'trace uses an epsilon move / derivation of >=3 steps; distinct by (object, word)',
+            'trace uses an epsilon move / derivation of >=3 steps; distinct by (object, word); also PDAs with epsilon push loops next to an epsilon branch, ambiguous stack symbols; a run not produced within 5 s and again 10 s for a word the acceptance test accepts at once is a violation',
     'assumptions': ['valid objects; CFGs in CNF with terminals/variables disjoint'],
     'trusted_base': ['Spec: Gamba/Spec/Automata.lean, PDA.lean, CFG.lean'],
 }
